@@ -347,6 +347,12 @@ pub fn dir_stream(p: &Project) -> Vec<u8> {
                 o.extend_from_slice(&(tw.len() as u32).to_le_bytes());
                 o.extend_from_slice(&tw);
                 o.extend_from_slice(&[0; 6]);
+                if r.name.len() % 2 == 0 {
+                    // optional NameRecordExtended: the name of the extended type library
+                    let ext_name = format!("{}_ext", r.name);
+                    var(&mut o, 0x0016, &encode_mbcs(&ext_name, p.codepage));
+                    var(&mut o, 0x003E, &utf16(&ext_name));
+                }
                 o.extend_from_slice(&0x0030u16.to_le_bytes());
                 o.extend_from_slice(&((4 + ext.len() + 26) as u32).to_le_bytes());
                 o.extend_from_slice(&(ext.len() as u32).to_le_bytes());
